@@ -62,11 +62,8 @@ def tasks(tier):
     for fn in ('FIM_uncert', 'GIM_uncert', 'LRT_adjust', 'Wald_stat', 'score_stat'):
         ts.append(Task('props.C19:ob_multinom_wiring', name='C19/multinom.' + fn, fname=fn, timeout=120))
     ts.append(Task('props.C19:ob_godambe_assembly', name='C19/get_godambe.assembly', timeout=120))
-    try:
-        from props import bounded_C19
-        ts += bounded_C19.tasks(tier)
-    except ImportError:
-        pass
+    from vf.helpers import bounded_tasks
+    ts += bounded_tasks('C19', tier)
     return ts
 
 
